@@ -97,30 +97,7 @@ func c18(c *q.Ctx) {
 	if fn := c.Fn(st + "(*State).GetTipXMSnapshotReader"); fn != nil {
 		c.ReturnIs(fn, 0, []string{"state.(*State).CreateXMSnapshotReader(p0,p0.latestBlockid)#0 OR xmodel.(*XModel).CreateXMSnapshotReader(p0.xmodel,p0.latestBlockid)#0"}, "the tip byte reader is always a snapshot at the latest confirmed block")
 	}
-	// who hands out the live model as a reader: the explicit live-reader constructor only
-	nLive := 0
-	for _, fn := range c.P.AllFns {
-		for _, b := range fn.Blocks {
-			for _, ins := range b.Instrs {
-				mi, ok := ins.(*ssa.MakeInterface)
-				if !ok || !strings.HasSuffix(mi.X.Type().String(), "xmodel.XModel") || !strings.HasSuffix(mi.Type().String(), "ledger.XMReader") {
-					continue
-				}
-				nLive++
-				c.Sites++
-				top := load.QualName(q.Top(fn))
-				why, ok := map[string]string{
-					st + "(*State).CreateXMReader": "the explicit live reader (pre-execution against pending state)",
-				}[top]
-				if ok {
-					c.OK("K3", top, "may hand out the live XModel as an XMReader", c.At(mi), why)
-				} else {
-					c.Fail("K3", top, "may hand out the live XModel as an XMReader", c.At(mi), "not in the frozen who-may table: readers of confirmed state must not see pending writes")
-				}
-			}
-		}
-	}
-	c.Floor("K3", st+"(*State).CreateXMReader", "live-reader hand-out sites", nLive, 1)
+	liveModelHandOut(c)
 	if fn := c.Fn(st + "(*State).CreateXMSnapshotReader"); fn != nil {
 		c.ArgIs(fn, "XModel.CreateXMSnapshotReader", 1, "p1", 1, "at the requested block")
 	}
@@ -219,4 +196,35 @@ func offsetBeforeMove(c *q.Ctx, fn *ssa.Function) {
 	}
 	c.Sites += n
 	c.Check(ok && n == 1, "K2", name, what, c.At(loadIns), "each writer's input offset and output offset are unrelated: using the moved cursor reads another key's slot")
+}
+
+// liveModelHandOut (C18, C11): who hands out the live model (which sees pending writes) as a reader: the explicit
+// live-reader constructor only - every "tip" or "snapshot" reader, which the ACL manager and the consensus read
+// through, is a snapshot of confirmed state.
+func liveModelHandOut(c *q.Ctx) {
+	const st = "bcs/ledger/xledger/state::"
+	// who hands out the live model as a reader: the explicit live-reader constructor only
+	nLive := 0
+	for _, fn := range c.P.AllFns {
+		for _, b := range fn.Blocks {
+			for _, ins := range b.Instrs {
+				mi, ok := ins.(*ssa.MakeInterface)
+				if !ok || !strings.HasSuffix(mi.X.Type().String(), "xmodel.XModel") || !strings.HasSuffix(mi.Type().String(), "ledger.XMReader") {
+					continue
+				}
+				nLive++
+				c.Sites++
+				top := load.QualName(q.Top(fn))
+				why, ok := map[string]string{
+					st + "(*State).CreateXMReader": "the explicit live reader (pre-execution against pending state)",
+				}[top]
+				if ok {
+					c.OK("K3", top, "may hand out the live XModel as an XMReader", c.At(mi), why)
+				} else {
+					c.Fail("K3", top, "may hand out the live XModel as an XMReader", c.At(mi), "not in the frozen who-may table: readers of confirmed state must not see pending writes")
+				}
+			}
+		}
+	}
+	c.Floor("K3", st+"(*State).CreateXMReader", "live-reader hand-out sites", nLive, 1)
 }
